@@ -4,6 +4,7 @@ import (
 	"go/ast"
 	"go/token"
 	"go/types"
+	"strings"
 
 	"arkverif/checker/core"
 )
@@ -54,10 +55,11 @@ func GetTableRoles(c *core.Ctx) *TableRoles {
 			}
 		}
 		// the roles are recognised by the multiset of parameter kinds, not by parameter order
+		// (scalars bundled into a small struct parameter count as the scalars they are)
 		kinds := map[string][]int{}
-		for i := 0; i < ps.Len(); i++ {
-			k := paramKind(ps.At(i).Type())
-			kinds[k] = append(kinds[k], i)
+		fps := flatParams(f.Sig)
+		for i, fp := range fps {
+			kinds[fp.kind] = append(kinds[fp.kind], i)
 		}
 		has := func(want map[string]int) bool {
 			n := 0
@@ -67,7 +69,7 @@ func GetTableRoles(c *core.Ctx) *TableRoles {
 				}
 				n += cnt
 			}
-			return n == ps.Len()
+			return n == len(fps)
 		}
 		switch {
 		case has(map[string]int{"int": 1}) && rs.Len() == 1 && returnsBool(f) && r.LenMutators[f]:
@@ -117,15 +119,15 @@ func paramKind(t types.Type) string {
 // parameter, or the only one for "count"). Independent of the order in which the function declares its parameters,
 // except for the relative order of the two row parameters (destination first), which is the convention of every
 // copy function of the package.
-func roleArg(f *core.Func, call *ast.CallExpr, slot string) ast.Expr {
+func roleArg(m *core.Model, f *core.Func, call *ast.CallExpr, slot string) ast.Expr {
 	if f == nil || f.Sig == nil {
 		return nil
 	}
-	ps := f.Sig.Params()
+	fps := flatParams(f.Sig)
 	var ints []int
 	idx := -1
-	for i := 0; i < ps.Len(); i++ {
-		switch k := paramKind(ps.At(i).Type()); {
+	for i, fp := range fps {
+		switch k := fp.kind; {
 		case k == "int":
 			ints = append(ints, i)
 		case k == "Entity" && slot == "entity", k == "ID" && slot == "comp", k == "*table" && slot == "src", k == "*column" && slot == "srcCol":
@@ -146,10 +148,68 @@ func roleArg(f *core.Func, call *ast.CallExpr, slot string) ast.Expr {
 			idx = ints[len(ints)-1]
 		}
 	}
-	if idx < 0 || idx >= len(call.Args) {
+	if idx < 0 || idx >= len(fps) || fps[idx].param >= len(call.Args) {
 		return nil
 	}
-	return call.Args[idx]
+	arg := call.Args[fps[idx].param]
+	if fps[idx].field == nil {
+		return arg
+	}
+	// a field of a bundled argument: the element of the struct literal that is passed (directly, through a naming
+	// local or a constructor that merely names the literal)
+	x := ast.Unparen(arg)
+	if _, isLit := x.(*ast.CompositeLit); !isLit {
+		x = ast.Unparen(m.InlineLocals(arg))
+		if _, isLit := x.(*ast.CompositeLit); !isLit {
+			x = ast.Unparen(m.Inline(arg))
+		}
+	}
+	if cl, ok := x.(*ast.CompositeLit); ok {
+		for _, el := range structLitElems(m, cl) {
+			if el.key == m.FieldKey(fps[idx].field.Origin()) {
+				return el.val
+			}
+		}
+	}
+	return nil
+}
+
+// flatParam is one scalar of a signature: a parameter, or a field of a parameter that bundles scalars in a small
+// struct of the package.
+type flatParam struct {
+	param int
+	field *types.Var
+	kind  string
+}
+
+func flatParams(sig *types.Signature) []flatParam {
+	var out []flatParam
+	ps := sig.Params()
+	for i := 0; i < ps.Len(); i++ {
+		t := ps.At(i).Type()
+		k := paramKind(t)
+		if strings.HasPrefix(k, "other:") {
+			if nt, ok := t.(*types.Named); ok && nt.Obj().Pkg() != nil && ps.At(i).Pkg() == nt.Obj().Pkg() {
+				if st, ok := nt.Underlying().(*types.Struct); ok && st.NumFields() > 0 && st.NumFields() <= 4 {
+					var sub []flatParam
+					simple := true
+					for j := 0; j < st.NumFields(); j++ {
+						fk := paramKind(st.Field(j).Type())
+						if strings.HasPrefix(fk, "other:") {
+							simple = false
+						}
+						sub = append(sub, flatParam{i, st.Field(j), fk})
+					}
+					if simple {
+						out = append(out, sub...)
+						continue
+					}
+				}
+			}
+		}
+		out = append(out, flatParam{i, nil, k})
+	}
+	return out
 }
 
 // missing lists the roles that could not be derived.
